@@ -184,6 +184,35 @@ def run(tier, seed, rng):
                 failures.append(dict(kind='oracle', sig='data-pack', what='Data pack: value + excluded delimiter not re-emitted',
                                      classes=decl.py_class(0, table_for(cfg)[0]), raw=raw.hex(), offset=off,
                                      observed=str(o['packed']), required=want_p))
+    # ---- regex delimiters whose match depends on context (look-behind, word boundary, anchors), for a field that does NOT start
+    # at offset 0: "the first match at or after the cursor" is decided on the bytes from the cursor on, never on what precedes it
+    import re as _re
+    zoo = [rb'(?<!\\);', rb'\bX', rb'^a', rb'(?<=a);', rb'X\b', rb'(?m)^;', rb'\B;', rb'(?<![a-z])X']
+    alpha = [0x61, 0x3b, 0x5c, 0x58, 0x20]
+    zsrc, zcases, zmeta = "", [], []
+    for zi, pat in enumerate(zoo):
+        for incl in (True, False):
+            nm = f"Z{zi}{'i' if incl else 'x'}"
+            zsrc += f"class {nm}(Packet):\n    p = Data(1)\n    d = Data(until_marker=re.compile({pat!r}), include_delimiter={incl})\n    t = Int(1)\n"
+            bodies = [bytes(t) for L in range(0, 4) for t in itertools.product(alpha, repeat=L)]
+            if tier == 'quick':
+                bodies = bodies[:6] + rng.sample(bodies[6:], 30)
+            for body in bodies:
+                for pre in (0x5c, 0x61, 0x20):
+                    raw = bytes([pre]) + body + b'\x07'
+                    zcases.append(dict(cls=nm, op='roundtrip', raw=raw.hex(), offset=0)); zmeta.append((nm, pat, incl, raw))
+    zres = run_impl(os.path.join(VERIF, 'harness', 'impl_pkt.py'), dict(header=decl.HEADER_PY, blocks=[dict(name='zoo', src=zsrc)], modname='c06z', cases=zcases))
+    dist['context_sensitive_regex_cases'] = len(zcases)
+    for (nm, pat, incl, raw), o in zip(zmeta, zres['outcomes']):
+        m = _re.compile(pat).search(raw[1:])
+        want = None
+        if m is not None and 1 + m.end() < len(raw):
+            want = (raw[1:1 + (m.end() if incl else m.start())], 1 + m.end() + 1)
+        got = (bytes.fromhex(dict(o['ok']['f'])['d']['x']), o['end']) if 'ok' in o else None
+        if got != want:
+            failures.append(dict(kind='oracle', sig='data-unpack-regex-context', what='a regex-delimited string that does not start at offset 0: not the first match at or after the cursor, decided on the bytes from the cursor on',
+                                 classes=[c for c in zsrc.split('class ') if c.startswith(nm + '(')][0].join(['class ', '']), cls=nm, raw=raw.hex(), offset=0,
+                                 observed=str(got), required=str(want)))
     return dict(evaluations=len(rt), distinct_nontrivial=len({(str(m[0]), m[1], m[2]) for m in meta if len(m[1]) > 1}), exhaustive=True,
                 classes=len(cfgs),
                 rule=("exhaustive: every marker of length 1..3 over {a,b} x include_delimiter x search_buffer_length in {unset,0,1,2,3,4}, "
